@@ -5,8 +5,8 @@ pid = sys.argv[1]
 for l in open('/verif/properties.jsonl'):
     p = json.loads(l)
     if p['id'] == pid: break
-wt = "/tmp/mut3/%s" % pid
-out = "/tmp/mutout3/%s" % pid
+wt = "/tmp/mut4/%s" % pid
+out = "/tmp/mutout4/%s" % pid
 print(f"""You are helping to evaluate a verification effort by acting as an independent "fault seeder" for the open-source Python project bbugyi200/zorg (a Zettelkasten note-manager CLI: ANTLR grammars for a .zo note format and a query language, compiled into domain models and SQLAlchemy/SQLite queries).
 
 You have your own scratch git worktree of the repository at {wt} (detached HEAD). Work ONLY inside {wt} and write your deliverables to {out}/ . Do not look at or touch /verif or /repo. There is no network.
